@@ -22,7 +22,7 @@ func init() {
 	core.Register(&core.Prop{
 		ID:    "C05",
 		Level: "exploration",
-		Rule: "strings over the 8-symbol alphabet {{ % } - \" space newline a}: ALL strings up to length 6 (quick) / 8 (thorough) through parser.Scan (partition + line law) and, when no tag or object opens, through parse+render (identity); ALL strings up to length 5 / 6 as raw bodies, comment bodies and printed string values; plus PRNG bytes / valid UTF-8 up to 64 KiB. A case is non-trivial when the string contains a delimiter character, a quote, a newline or a non-ASCII byte; distinct = distinct (law, string).",
+		Rule: "strings over the 8-symbol alphabet {{ % } - \" space newline a}: ALL strings up to length 6 (quick) / 8 (thorough) through parser.Scan (partition + line law) and, when no tag or object opens, through parse+render (identity, also as the registered source of an included template and as captured text); ALL strings up to length 5 / 6 as raw bodies, comment bodies and printed string values; plus PRNG bytes / valid UTF-8 up to 64 KiB. A case is non-trivial when the string contains a delimiter character, a quote, a newline or a non-ASCII byte; distinct = distinct (law, string).",
 		Exhaustive: func(string) bool { return true },
 		Assumptions: []string{
 			"'no tag or object opens' is decided model-free: the source contains neither \"{{\" nor \"{%\"",
@@ -89,6 +89,26 @@ func c05Plain(c *core.Ctx, e *liquid.Engine, s string) {
 			map[string]any{"source": s, "observed": r.Brief()})
 	}
 	c.Obs("plain_text_renders", 1)
+	// the same text as the content of an included template (registered source), and captured and printed
+	if len(s) < 4000 {
+		if _, pr := core.ParseCache(e, s, "c05inc/part.html", 1); pr.OK() {
+			ri := core.RunAt(e, "{% include 'part.html' %}", "c05inc/top.html", 1, nil)
+			rc := core.Res{Out: s}
+			if !strings.HasSuffix(s, "{") { // otherwise the text and the end tag would spell an opening delimiter
+				rc = core.Run(e, "{% capture cap %}"+s+"{% endcapture %}{{ cap }}", nil)
+			}
+			c.Eval(2)
+			if !ri.OK() || ri.Out != s {
+				c.Violate("plain-included|"+resClass(ri), "literal text that is the content of an included template was not emitted exactly", map[string]any{"included_source": s, "observed": ri.Brief()})
+			}
+			if !rc.OK() || rc.Out != s {
+				c.Violate("plain-captured|"+resClass(rc), "literal text captured and printed was not emitted exactly", map[string]any{"captured_text": s, "observed": rc.Brief()})
+			}
+			c.Obs("plain_text_included_and_captured", 1)
+		} else {
+			c.Violate("plain-included|registration", "plain text was rejected by ParseTemplateAndCache", map[string]any{"source": s, "observed": pr.Brief()})
+		}
+	}
 }
 
 // resClass summarises how a result deviates, for violation keys.
